@@ -115,6 +115,10 @@ def tier_p(prop, cfg, tier, jobs):
                 lemmas.append(n)
                 todo.append(api.LEMMAS[n])
     trusted = [f"{k}: {c.trusted}" for k, c in api.CONTRACTS.items() if c.trusted and prop in c.props]
+    # naming clauses (`defines`) are assumed at call sites, never proved: they only say that the function is a pure,
+    # deterministic function of its arguments (its answer is given a name); the native phase evaluates them
+    trusted += [f"{k}: naming assumption (answer is a function of the arguments; checked natively only): {'; '.join(c.defines)}"
+                for k, c in api.CONTRACTS.items() if c.defines and not c.trusted and prop in c.props]
     axioms = [f"axiom {a.name}: {a.expr} ({a.reason})" for a in api.AXIOMS]
     shards = {k: cfg.get("shards", {}).get(k, 1) for k in keys}
     t0 = time.time()
